@@ -75,6 +75,8 @@ func tnum(s string) int {
 
 func graphSource(defs []gdef) string {
 	var b strings.Builder
+	// variables that share their names with tasks: a name in a dependency list is a task, whatever else is called the same
+	b.WriteString("Ta := \".\"\ntb := \".\"\n\n")
 	for _, d := range defs {
 		ds := make([]string, len(d.deps))
 		for i, x := range d.deps {
